@@ -185,6 +185,7 @@ fn run_cell(kind: &str, p: &str, ks: &Keys, seed: u64) -> Result<Vec<(String, &'
                 "content" => { let mut d = DATA.to_vec(); d[3] ^= 0x20; d }
                 "truncate" => DATA[..DATA.len() - 1].to_vec(),
                 "extend" => { let mut d = DATA.to_vec(); d.push(b'x'); d }
+                "extend_blank_lookalike" => String::from_utf8_lossy(DATA).replacen("second line", "second line\u{a0}", 1).into_bytes(),
                 "content_eol" => crate::forge::canon_text(DATA),
                 _ => DATA.to_vec(),
             };
@@ -216,7 +217,7 @@ fn run_cell(kind: &str, p: &str, ks: &Keys, seed: u64) -> Result<Vec<(String, &'
                         }
                     }
                 }
-                if matches!(p, "content" | "truncate" | "extend" | "content_eol") {
+                if matches!(p, "content" | "truncate" | "extend" | "content_eol" | "extend_blank_lookalike") {
                     let lb = literal_body(b"", &data);
                     ps[1].body = lb;
                 }
@@ -255,9 +256,19 @@ fn run_cell(kind: &str, p: &str, ks: &Keys, seed: u64) -> Result<Vec<(String, &'
                     "content_eol" => doc.replace("first line\n", "first line\r\n"),
                     _ => doc.clone(),
                 };
-                if !is_sig_field && !p.starts_with("ops_") {
+                if !is_sig_field && !p.starts_with("ops_") && p != "extend_blank_lookalike" {
                     let r = CleartextSignedMessage::from_string(&doc2).and_then(|(m, _)| m.verify(&vkey_primary).map(|_| ()));
                     out.push(("CleartextSignedMessage::verify".into(), cls(r)));
+                }
+                if p == "extend_blank_lookalike" {
+                    // each look-alike, at the end of a line and at the end of the text
+                    for (name, ch) in [("VT", '\u{b}'), ("FF", '\u{c}'), ("NEL", '\u{85}'), ("NBSP", '\u{a0}'), ("LS", '\u{2028}'), ("IDEOGRAPHIC SPACE", '\u{3000}'), ("EM SPACE", '\u{2003}')] {
+                        for target in ["second line", "first line"] {
+                            let d = doc.replacen(target, &format!("{target}{ch}"), 1);
+                            let r = CleartextSignedMessage::from_string(&d).and_then(|(m, _)| m.verify(&vkey_primary).map(|_| ()));
+                            out.push((format!("CleartextSignedMessage::verify ({name} after '{target}')"), cls(r)));
+                        }
+                    }
                 }
             }
         }
@@ -280,7 +291,7 @@ fn run_cell(kind: &str, p: &str, ks: &Keys, seed: u64) -> Result<Vec<(String, &'
                 _ => mk_sig_cfg(sec, typ, seed).and_then(|c| c.sign_key(&sec.primary_key, &Password::empty(), &pubk.primary_key)),
             }
             .map_err(e)?;
-            if matches!(p, "truncate" | "extend" | "content_eol") {
+            if matches!(p, "truncate" | "extend" | "content_eol" | "extend_blank_lookalike") {
                 return Err("construct: not applicable".into());
             }
             if p.starts_with("backsig_") {
@@ -326,6 +337,28 @@ fn run_cell(kind: &str, p: &str, ks: &Keys, seed: u64) -> Result<Vec<(String, &'
                         out.push(("verify_key_third_party".into(), cls(sig2.verify_key_third_party(&ks.other.primary_key, &vkey_primary))));
                     } else {
                         out.push(("verify_key".into(), cls(sig2.verify_key(&vkey_primary))));
+                    }
+                }
+            }
+            // third-party certification (signer != certified key), with and without issuer subpackets: without them only the
+            // key/signature version alignment and the cryptography stand between a twin key and acceptance
+            if kind == "certification" && matches!(p, "none" | "key_other" | "key_same_material_other_version" | "key_same_material_other_identity") {
+                for with_issuer in [true, false] {
+                    let mut cfg = mk_sig_cfg(sec, SignatureType::CertGeneric, seed).map_err(e)?;
+                    if !with_issuer {
+                        cfg.hashed_subpackets.retain(|sp| !matches!(sp.data, SubpacketData::IssuerFingerprint(_)));
+                        cfg.unhashed_subpackets.clear();
+                    }
+                    let s3 = cfg.sign_certification_third_party(&sec.primary_key, &Password::empty(), &ks.other.primary_key, Tag::UserId, &uid).map_err(e)?;
+                    let r = s3.verify_third_party_certification(&ks.other.primary_key, &vkey_primary, Tag::UserId, &uid);
+                    // without issuer information another identity of the SAME version and material is indistinguishable: not constrained
+                    if !(p == "key_same_material_other_identity" && !with_issuer) {
+                        out.push((format!("verify_third_party_certification (issuer subpackets: {with_issuer})"), cls(r)));
+                    }
+                    let su = pgp::types::SignedUser::new(uid.clone(), vec![s3]);
+                    let r = su.verify_third_party(&ks.other.primary_key, &vkey_primary);
+                    if !(p == "key_same_material_other_identity" && !with_issuer) {
+                        out.push((format!("SignedUser::verify_third_party (issuer subpackets: {with_issuer})"), cls(r)));
                     }
                 }
             }
